@@ -175,11 +175,12 @@ def fresh_model(g, cls_name, dtype, n=None, d=None, fields=None, params=None):
     if cls_name == "SMCSamples":
         m.beta = float(g.choice([0.0, 0.25, 1.0]))
         if g.random() < 0.5:
-            m.le = float(g.normal())
-            m.lee = float(abs(g.normal()) * 0.1)
+            # zero is a value like any other (log Z = 0 for a normalised target, error 0 before the first iteration)
+            m.le = float(g.normal()) if g.random() < 0.7 else 0.0
+            m.lee = float(abs(g.normal()) * 0.1) if g.random() < 0.7 else 0.0
     elif cls_name == "Samples" and not m.weighted and g.random() < 0.6:
-        m.le = float(g.normal())
-        m.lee = float(abs(g.normal()) * 0.1)
+        m.le = float(g.normal()) if g.random() < 0.7 else 0.0
+        m.lee = float(abs(g.normal()) * 0.1) if g.random() < 0.7 else 0.0
     return m, fields
 
 
